@@ -81,6 +81,13 @@ CHECKS = {
             "expected memory images use the natural struct layout (validated by C17); fault text must contain 'index out of bounds' / mention unwrap",
             "runtime monitoring: guarded-memory watch + event-marker ordering oracle over per-site executions of the compiled program",
             "cli", "4/C10"),
+    "C09": ("exploration",
+            "literal uses (boundary values of every width x spellings x contexts, all printable escape letters, malformed char literals, strings with escapes, "
+            "shortest round-trip decimals of random f32/f64 bit patterns) are compiled by the real CLI with one use per line, so the accept/reject decision of "
+            "each literal is observed individually from the diagnostics' line numbers; the accepted ones are run and their bytes/values compared with the spelled value.",
+            "an unknown escape or a malformed/non-u8 char literal is expected to be rejected; unannotated literals may be rejected by defaulting but never change value",
+            "runtime monitoring: per-literal accept/reject observation + value oracle on the executed program",
+            "cli", "4/C09"),
 }
 
 NOT_YET = "check not built yet in this round (work in progress; see DESIGN.md section 4 for the plan)"
